@@ -1,4 +1,5 @@
-import asyncio, codecs, datetime
+import asyncio, codecs, datetime, tempfile, os
+CSV = os.path.join(tempfile.mkdtemp(), "t.csv")
 from basana.core.pair import Pair
 from basana.external.bitstamp.csv import bars
 txt = "datetime,open,high,low,close,volume\n2015-01-02 00:00:00,3,4,2,3,1.5\n2015-01-01 00:00:00,1,2,1,2,0\n2015-01-01 00:00:00,1,2,1,2,7\n"
@@ -6,8 +7,8 @@ encs = {"utf8":(b"", "utf-8"), "utf8bom":(codecs.BOM_UTF8,"utf-8"), "u16le_bom":
  "u32le_bom":(codecs.BOM_UTF32_LE,"utf-32-le"), "u32be_bom":(codecs.BOM_UTF32_BE,"utf-32-be"), "u16le":(b"","utf-16-le"), "u16be":(b"","utf-16-be"), "u32le":(b"","utf-32-le")}
 async def run(name):
     bom, enc = encs[name]
-    open("/tmp/exp/t.csv","wb").write(bom+txt.encode(enc))
-    src = bars.BarSource(Pair("BTC","USD"), "/tmp/exp/t.csv", "1d", sort=True)
+    open(CSV,"wb").write(bom+txt.encode(enc))
+    src = bars.BarSource(Pair("BTC","USD"), CSV, "1d", sort=True)
     await src.initialize()
     out=[]
     try:
